@@ -18,7 +18,8 @@ FormOk(S, f) == (f = "impl" => S # {}) /\ (f = "split" => Cardinality(S) >= 2)
 \* each function declares its bounds in some form and takes the dependency by reference or by value
 FnDecls == { d \in [S : SUBSET B, form : Forms, byvalue : BOOLEAN] : FormOk(d.S, d.form) }
 ModDecls == { d \in [S : {{}, {"B1"}, {"B2"}, {"B1", "B2"}, {"B3"}}, form : {"inline", "where", "impl"}, byvalue : BOOLEAN] : FormOk(d.S, d.form) }
-Mocks == {"none", "unimock+api", "api-only", "unimock=false+api", "mockall", "mockall=false"}
+\* ("nosend": no mock setting but `?Send` - the fixed `Sync + 'static` requirement does not depend on it)
+Mocks == {"none", "unimock+api", "api-only", "unimock=false+api", "mockall", "mockall=false", "nosend"}
 Inputs == { i \in [mode : {"fn"}, fns : { <<d>> : d \in FnDecls }, mock : Mocks, feature : BOOLEAN]
                   : i.mock = "unimock+api" => i.feature }
           \cup (IF WithMod THEN { i \in [mode : {"mod"}, fns : { <<d1, d2>> : d1 \in ModDecls, d2 \in ModDecls }, mock : Mocks, feature : BOOLEAN]
@@ -30,6 +31,7 @@ MockOpts(m) == CASE m = "none" -> <<>>
                  [] m = "unimock=false+api" -> <<Eq("unimock", "false"), Eq("mock_api", "Mk")>>
                  [] m = "mockall" -> <<Bare("mockall")>>
                  [] m = "mockall=false" -> <<Eq("mockall", "false")>>
+                 [] m = "nosend" -> <<Bare("?Send")>>
 AttrOf(i) == [lead |-> "pub T", opts |-> MockOpts(i.mock), trail |-> ""]
 FE(i) == FrontEnd(i.mode, AttrOf(i), "entrait", i.feature)
 
